@@ -6,7 +6,14 @@ pub mod akd_core {
 }
 pub enum VrfError { PublicKey(String), SigningKey(String), Verification(String) }
 pub enum VerificationError { MembershipProof(String), NonMembershipProof(String), LookupProof(String), HistoryProof(String), Vrf(VrfError) }
-pub trait Configuration {}
+pub trait Configuration {
+    spec fn spec_stale() -> AzksValue;
+    spec fn spec_fresh(commitment_key: Seq<u8>, label: NodeLabel, version: u64, value: Seq<u8>) -> AzksValue;
+    fn stale_azks_value() -> (r: AzksValue)
+        ensures r == Self::spec_stale();
+    fn compute_fresh_azks_value(commitment_key: &[u8], label: &NodeLabel, version: u64, value: &AkdValue) -> (r: AzksValue)
+        ensures r == Self::spec_fresh(commitment_key@, *label, version, value.0@);
+}
 pub trait Database {}
 pub trait VRFKeyStorage {}
 #[verifier::external_body]
@@ -49,3 +56,31 @@ pub proof fn grant_epoch_confirmed<S: Database>(st: &StorageManager<S>, a: Azks,
     ensures epoch_confirmed(e)
 {}
 pub mod errors { pub use crate::AkdError; }
+
+// ---- C01 (middle of publish): how the update set is built from the labelled tuples
+use std::collections::HashMap;
+pub type LabelInput = (AkdLabel, VersionFreshness, u64, AkdValue);
+pub uninterp spec fn commitment_key_of<V>(vrf: &V) -> Result<Digest, AkdError>;
+// R-MAPITER target: removes and returns an ARBITRARY entry (models every iteration order of a HashMap)
+#[verifier::external_body]
+pub fn vx_pop_any<K: core::hash::Hash + Eq, V>(m: &mut HashMap<K, V>) -> (r: Option<(K, V)>)
+    ensures
+        match r {
+            Some((k, v)) => old(m)@.contains_key(k) && old(m)@[k] == v && final(m)@ == old(m)@.remove(k),
+            None => old(m)@.dom() =~= Set::empty() && final(m)@ == old(m)@,
+        }
+{ unimplemented!() }
+// the tree leaf the statement of C01 prescribes for one labelled tuple: a stale leaf carries the stale constant, a fresh leaf the
+// commitment to (key-derived commitment key, node label, version, value)
+pub open spec fn leaf_for<TC: Configuration>(ck: Seq<u8>, k: LabelInput, node_label: NodeLabel) -> AzksElement {
+    AzksElement { label: node_label, value: if k.1 is Stale { TC::spec_stale() } else { TC::spec_fresh(ck, node_label, k.2, k.3.0@) } }
+}
+pub open spec fn state_for(k: LabelInput, node_label: NodeLabel, epoch: u64) -> ValueState {
+    ValueState { value: k.3, version: k.2, label: node_label, epoch, username: k.0 }
+}
+pub open spec fn elem_ok<TC: Configuration>(m: Map<LabelInput, NodeLabel>, ck: Seq<u8>, el: AzksElement) -> bool {
+    exists|k: LabelInput| m.contains_key(k) && #[trigger] leaf_for::<TC>(ck, k, m[k]) == el
+}
+pub open spec fn state_ok(m: Map<LabelInput, NodeLabel>, epoch: u64, st: ValueState) -> bool {
+    exists|k: LabelInput| m.contains_key(k) && k.1 is Fresh && #[trigger] state_for(k, m[k], epoch) == st
+}
